@@ -145,7 +145,13 @@ def run(ctx):
                                    "fmla z3.d, p0/m, z2.d, z4.d", "incd x4", "whilelo p0.d, x4, x5", "b.first .L4"]),
              ("aarch64", "a64fx", ["ld1w {z1.s}, p0/z, [x0, z1.s, uxtw #2]", "ld1w {z2.s}, p0/z, [x1, x4, lsl #2]", "fadd z3.s, z3.s, z2.s", "incw x4", "b.first .L4"]),
              ("x86", "zen3", ["vmovsd (%rax,%rbx,8), %xmm1", "vaddsd %xmm1, %xmm0, %xmm0", "vmovsd tab(,%rbx,8), %xmm2", "vaddsd %xmm2, %xmm0, %xmm0", "addq $1, %rbx"]),
-             ("x86", "zen3", ["movq (,%rcx,8), %rcx", "movq 8(%rax,%rcx,8), %rdx", "addq %rdx, %rsi", "addq $8, %rax"])]
+             ("x86", "zen3", ["movq (,%rcx,8), %rcx", "movq 8(%rax,%rcx,8), %rdx", "addq %rdx, %rsi", "addq $8, %rax"]),
+             # a second address register DERIVED from the store's base before the store, the reload goes through the derived register and the
+             # base is re-assigned from it: whether the store->load edge exists must not depend on where the body is cut
+             ("aarch64", "a64fx", ["add x3, x1, #8", "ldr d1, [x2], #8", "fmadd d3, d0, d2, d1", "str d3, [x1, #8]", "ldr d0, [x3]", "mov x1, x3", "cmp x1, x5", "b.ne .L4"]),
+             ("aarch64", "n1", ["mov x3, x1", "str d3, [x1]", "ldr d0, [x3]", "fadd d3, d0, d1", "add x1, x1, #8"]),
+             ("x86", "zen2", ["movq %rax, %rbx", "vmovsd %xmm3, 8(%rax)", "vmovsd 8(%rbx), %xmm0", "vaddsd %xmm0, %xmm1, %xmm3", "addq $8, %rax"]),
+             ("x86", "zen2", ["leaq 8(%rax), %rbx", "addq $8, %rbx", "vmovsd %xmm3, 16(%rax)", "vmovsd (%rbx), %xmm0", "vmulsd %xmm0, %xmm1, %xmm3", "movq %rbx, %rax"])]
     for isa, arch, body in twins:
         if arch not in avail:
             continue
